@@ -81,6 +81,24 @@ def check_one(data: bytes, addr: int, rep: Report, tail_kind: str) -> None:
                               f"decode ok (len {ln}) but encode raised {type(exc).__name__}: {str(exc)[:80]}"))
         rep.case(None, labels, None)
         return
+    # (1b) analysing and lifting a decoded instruction must not change what it re-encodes / renders to
+    try:
+        from binaryninja import InstructionInfo
+        from binja_test_mocks.mock_llil import MockLowLevelILFunction
+        from binja_test_mocks.tokens import asm_str
+
+        text0 = asm_str(ins.render())
+        ins.analyze(InstructionInfo(), addr)
+        ins.lift(MockLowLevelILFunction(), addr)
+        re_enc2 = bytes(encode(ins, addr))
+        text1 = asm_str(ins.render())
+        if re_enc2 != re_enc or text1 != text0:
+            rep.violate(Violation("exact-inverse", where, "analyze()/lift() changed what the decoded instruction encodes or renders to",
+                                  case, f"before: {re_enc.hex()} '{text0}'  after analyze+lift: {re_enc2.hex()} '{text1}'"))
+    except BaseException as exc:  # noqa: BLE001
+        if type(exc).__name__ not in ("NotImplementedError", "InvalidInstruction"):
+            rep.violate(Violation("encode-total", where, f"encode/render after analyze+lift raises {type(exc).__name__}", case,
+                                  f"{body.hex()} @ {addr:#x}: {type(exc).__name__}: {str(exc)[:80]}"))
     if re_enc != body:
         # classify: which byte positions differ, and does the re-encoded form decode to the same text?
         pos = [i for i in range(min(len(re_enc), len(body))) if re_enc[i] != body[i]]
